@@ -22,3 +22,8 @@ func drShallow(r *DecodeResult) bool { return flatOK(r) && closersOK(r) }
 
 // fdSlicesEmpty: the per-field scratch and data slices hold no elements (what trunc leaves).
 func fdDataEmpty(fd *FieldData) bool { return len(fd.data) == 0 }
+
+// nestedDecodersOK: every nested tag has its decoder (NestedResult(s) call a method on it).
+func nestedDecodersOK(r *DecodeResult) bool {
+	return gocv_forall(0, len(r.nestedDecoders), func(i int) bool { return r.nestedDecoders[i] != nil })
+}
